@@ -6,7 +6,7 @@ from .common import strip_casts, short, comparison, FLIP, member_funcs
 
 UNITS = ['sdk/src/metrics/state/temporal_metric_storage.cc', 'sdk/src/metrics/state/sync_metric_storage.cc',
          'sdk/src/metrics/aggregation/sum_aggregation.cc', 'sdk/src/metrics/meter.cc',
-         'sdk/src/metrics/state/metric_collector.cc', 'sdk/src/metrics/sync_instruments.cc', 'sdk/src/metrics/meter_context.cc']
+         'sdk/src/metrics/state/metric_collector.cc', 'sdk/src/metrics/sync_instruments.cc', 'sdk/src/metrics/meter_context.cc', 'sdk/src/metrics/state/filtered_ordered_attribute_map.cc']
 DRIVERS = ['metrics_headers.cc']
 CANARIES = ['c06_canary.cc']
 
@@ -463,6 +463,8 @@ def run(ck, prog):
     ck.doc('C06.R5', 'registry writes in the per-view callback use a view-dependent key', 2)
     ck.doc('C06.R6', 'Sum Merge = this + delta, Diff = next - this', 4)
     ck.doc('C06.R7', 'collection fan-in: every meter and every storage is visited; iteration callbacks never ask to stop', 3)
+    ck.doc('C08.R2', '(shared rule, see C08) every constructor / mutation of the series key ends in UpdateHash()', 5)
+    ck.doc('C08.R4', '(shared rule, see C08) overflow guard arithmetic; lookup miss -> overflow test -> insertion in every GetOrSetDefault', 5)
     with ck.canary('C06.R1'):
         rule_r1_sync(ck, prog, cls='canary::c06::BadStorage')
     rule_r1_sync(ck, prog)
@@ -474,4 +476,7 @@ def run(ck, prog):
     rule_r5(ck, prog)
     rule_r6(ck, prog)
     rule_r7(ck, prog)
+    from . import c08
+    c08.rule_r4(ck, prog)
+    c08.rule_r2(ck, prog)
     return {}
